@@ -478,6 +478,7 @@ class InductionProof(StateItem):
             "goal": str(self.goal),
             "latex_goal": latex.convert_expr(self.goal),
             "induct_var": self.induct_var,
+            "start": str(self.start),
             "base_case": self.base_case.export(),
             "induct_case": self.induct_case.export(),
             "finished": self.is_finished()
@@ -887,7 +888,8 @@ def parse_item(parent, item) -> StateItem:
     elif item['type'] == 'InductionProof':
         goal = parser.parse_expr(item['goal'])
         induct_var = item['induct_var']
-        res = InductionProof(parent, goal, induct_var)
+        start = parser.parse_expr(item['start']) if 'start' in item else 0
+        res = InductionProof(parent, goal, induct_var, start=start)
         res.base_case = parse_item(res, item['base_case'])
         res.induct_case = parse_item(res, item['induct_case'])
         res.induct_case.ctx.add_induct_hyp(goal)
